@@ -992,6 +992,8 @@ func (t *trzszTransfer) sendFiles(sourceFiles []*sourceFile, progress progressCa
 		if err := t.sendFileMD5(digest, progress); err != nil {
 			return nil, err
 		}
+
+		file.Close() // do not keep every sent file open until the whole transfer is over
 	}
 
 	return remoteNames, nil
